@@ -321,6 +321,14 @@ class Facts:
         # no_std builds print std-facade paths as core:: / alloc::; normalise so rules see one spelling
         txt = re.sub(r'\b(?:core|alloc)::(?=[a-z_]+::|[A-Z])', 'std::', txt)
         self.raw = json.loads(txt)
+        # crate-internal functions that were merely renamed are analysed under their reference names (alias.py)
+        self.aliases = {}
+        if crate == 'bigdecimal':
+            import alias
+            self.aliases = alias.find_aliases(self.raw)
+            if self.aliases:
+                txt = alias.apply(txt, self.aliases)
+                self.raw = json.loads(txt)
         self.crate = crate
         self.out_dir = self.raw.get('out_dir', '')
         self.fns = {}
